@@ -226,7 +226,7 @@ func c11(c *Ctx) {
 func c11Loopback(c *Ctx) {
 	c09Stalls.start() // host-stall monitor (see c09.go)
 	defer close(c09Stalls.stop)
-	T := 200 * time.Millisecond
+	T := 230 * time.Millisecond // (not a round number)
 	workers := 8
 	N := c.N(12, 80)
 	if c.Mode == "race" {
